@@ -598,11 +598,30 @@ where
 {
     let lat = lattice();
     let mut r = BaseRng::from_env(hseed(&[ctx.seed, crate::rng::hstr(W::NAME), 0xC08]));
-    for vi in 0..vectors {
-        let ws = loop {
-            let w = random_ws::<W>(&mut r, if vi % 10 == 0 { 10_000 } else { 64 }, false);
-            if alias_spec::<W>(&w).is_empty() {
-                break w;
+    // fixed vectors at the per-length maximum (n*w reaches the type's MAX): lengths where (MAX/n)*n rounds up for floats
+    let mut fixed: Vec<Vec<M>> = vec![];
+    for len in [2usize, 3, 6, 7, 9, 12, 25, 31] {
+        let mx = if W::IS_FLOAT {
+            M::F(if W::NAME == "f32" { (f32::MAX / len as f32) as f64 } else { f64::MAX / len as f64 })
+        } else {
+            M::I { neg: false, mag: W::imax() / len as u128 }
+        };
+        let zero = M::from_zero::<W>();
+        let v: Vec<M> = (0..len).map(|i| if i % 3 == 2 { zero } else { mx }).collect();
+        if alias_spec::<W>(&v).is_empty() {
+            fixed.push(v);
+        }
+    }
+    let nfixed = fixed.len();
+    for vi in 0..(vectors + nfixed) {
+        let ws = if vi < nfixed {
+            fixed[vi].clone()
+        } else {
+            loop {
+                let w = random_ws::<W>(&mut r, if vi % 10 == 0 { 10_000 } else { 64 }, false);
+                if alias_spec::<W>(&w).is_empty() {
+                    break w;
+                }
             }
         };
         let input: Vec<W> = ws.iter().map(|&m| W::from_m(m)).collect();
